@@ -29,6 +29,8 @@ CONSTANTS Workers,      \* e.g. {"w0", "w1"}
           GRewindConflict, GMarkEstimate, GRemoveStale, GFinStatus, GFinCursor, GFinTs, GFinCarry,
           GCommitOrder, GHeadOnly, GNotifyFin, GNotifyCom, GNotifyBatch, GNotifyCancel, GKeyLive,
           GCommitRelease, GFallbackStart, GResetMasks, GCreatedWins,
+          GNonceReplay, \* with nonce checking on, an error of an attempt at the commit head is revalidated in order
+                        \* instead of deciding the block (fix 32e7315: the attempt ran with the nonce check off)
           GHeadAtStart  \* the commit-head test of a failed attempt uses the boundary sampled when the
                         \* attempt started (the "fix:" for finding F2); FALSE = sampled when the error is handled
 
@@ -66,6 +68,14 @@ IsResetLoc(l) == "resetOf" \in DOMAIN block /\ \E x \in DOMAIN block.resetOf : b
 Zero == IF TraceMode THEN "0" ELSE 0
 RegVal(regs, r) == IF r = 0 THEN 0 ELSE regs[r]
 
+(* Sender nonces. Workers execute with the sender-nonce check off; ordered commit re-checks the nonce (C_Nonce)
+   unless nonce checking is disabled for the block. In the model a transaction whose nonce is wrong in block order
+   is a program that starts with <<"badnonce">>: in order it is rejected before it executes anything (skipped), a
+   worker runs its body regardless.                                                                            *)
+NonceChecked == IF "nonceCheck" \in DOMAIN block THEN block.nonceCheck ELSE TRUE
+BadNonce(prog) == NonceChecked /\ prog # <<>> /\ prog[1][1] = "badnonce"
+Body(prog) == IF prog # <<>> /\ prog[1][1] = "badnonce" THEN Tail(prog) ELSE prog      \* jump targets count from the body
+
 RECURSIVE RunLocal(_, _, _, _)
 RunLocal(prog, ip, regs, wbuf) ==
   IF ip > Len(prog) THEN [ip |-> ip, regs |-> regs, wbuf |-> wbuf, st |-> "ok"]
@@ -92,7 +102,9 @@ RefFrom(prog, c, st) ==
   THEN LET ins == prog[c.ip] IN
        RefFrom(prog, RunLocal(prog, c.ip + 1, [c.regs EXCEPT ![ins[3]] = st[ins[2]]], c.wbuf), st)
   ELSE c
-RefExec(prog, st) == RefFrom(prog, RunLocal(prog, 1, ZeroRegs, EmptyW), st)
+RefExec(prog, st) ==
+  IF BadNonce(prog) THEN [ip |-> 1, regs |-> ZeroRegs, wbuf |-> EmptyW, st |-> "invalid"]
+  ELSE RefFrom(Body(prog), RunLocal(Body(prog), 1, ZeroRegs, EmptyW), st)
 Apply(st, wbuf) == [l \in Locs |-> IF wbuf[l] # NoW THEN wbuf[l]
                                     ELSE IF ResetOf(l) # "none" /\ wbuf[ResetOf(l)] # NoW THEN 0 ELSE st[l]]
 
@@ -343,7 +355,7 @@ D_RemoveNP(w) ==     \* remove(tx, false): a claim found the tx past execution
                  cstate, outcomes, returned>>
 
 (* ---- execute_task ---- *)
-Prog(i) == block.progs[i + 1]
+Prog(i) == Body(block.progs[i + 1])
 
 StartExec(w, i) ==   \* locals of a fresh attempt, advanced to its first shared read
   LET c == IF TraceMode THEN [ip |-> 1, regs |-> ZeroRegs, wbuf |-> EmptyW, st |-> "read"]
@@ -512,11 +524,16 @@ D_Remove(w) ==       \* remove(tx, true) after a clean execution
                  finIdx, comIdx, executed, clock, lowerTs, unconfTs, abort, abortReason, abortTx, slot,
                  cstate, outcomes, returned>>
 
+(* Workers execute with the sender-nonce check off; ordered commit re-checks the nonce (C_Nonce) unless nonce
+   checking is disabled for the block, in which case it skips the comparison altogether. For the same reason
+   an error of an attempt at the commit head decides the block directly only when nonce checking is disabled:
+   otherwise in-order execution may reject the transaction before reaching the failing read, and the suffix is
+   revalidated in order (fix 32e7315, DESIGN.md section 7).                                                  *)
 E_HeadCheck(w) ==    \* an error with no unresolved predecessor: fatal / fallback only at the commit head
   /\ pc[w] = "e_headcheck"
   /\ result' = StoreResult(w)
   /\ IF (IF GHeadAtStart THEN loc[w].c ELSE comIdx) = loc[w].tx \/ ~GHeadOnly
-     THEN /\ loc' = [loc EXCEPT ![w].reason = IF loc[w].kind = "invalid" THEN "fallback" ELSE "fatal",
+     THEN /\ loc' = [loc EXCEPT ![w].reason = IF loc[w].kind = "invalid" \/ (GNonceReplay /\ NonceChecked) THEN "fallback" ELSE "fatal",
                                 ![w].atx = loc[w].tx, ![w].ret = "d_keytx"]
           /\ Goto(w, "a_abort")
      ELSE UNCHANGED loc /\ Goto(w, "d_keytx")
@@ -803,14 +820,15 @@ C_FinLoad ==
 C_Take ==    \* take the finalized result; a missing or failed one is a scheduler inconsistency
   /\ pc["com"] = "c_take"
   /\ IF result[C].has /\ result[C].kind = "ok"
-     THEN Goto("com", IF TraceMode THEN "c_nonce" ELSE "c_apply") /\ UNCHANGED loc
+     THEN Goto("com", IF TraceMode \/ BadNonce(block.progs[C + 1]) THEN "c_nonce" ELSE "c_apply") /\ UNCHANGED loc
      ELSE Goto("com", "a_abort") /\ loc' = [loc EXCEPT !["com"].reason = "parallel", !["com"].atx = C, !["com"].ret = "done"]
   /\ UNCHANGED <<block, status, inc, hint, txLock, result, mv, onboard, dep, affects, execIdx, valIdx,
                  finIdx, comIdx, executed, clock, lowerTs, unconfTs, abort, abortReason, abortTx, slot,
                  cstate, outcomes, returned>>
 
-(* commit-time nonce re-check against the committed state (ordered_commit.rs:115-143). Account
-   nonces are not part of the model-checking programs; in trace mode the verdict is the record's. *)
+(* commit-time nonce re-check against the committed state (ordered_commit.rs:115-143). In the model a wrong
+   nonce is the static marker of the program (the step is skipped for the others to keep the state space
+   small); in trace mode the verdict is the record's.                                                   *)
 C_Nonce(ok) ==
   /\ pc["com"] = "c_nonce"
   /\ IF ok THEN Goto("com", "c_apply") /\ UNCHANGED loc
@@ -820,7 +838,7 @@ C_Nonce(ok) ==
                  cstate, outcomes, returned>>
 
 C_Apply ==   \* OrderedCommitter::commit: state applied, outcome pushed (the commit event)
-  /\ pc["com"] = "c_apply"
+  /\ pc["com"] = "c_apply" \/ (pc["com"] = "c_nonce" /\ ~NonceChecked)
   /\ cstate' = [l \in Locs |-> IF l \in result[C].ws THEN result[C].wv[l]
                               ELSE IF ResetOf(l) # "none" /\ ResetOf(l) \in result[C].ws THEN Zero ELSE cstate[l]]
   /\ outcomes' = Append(outcomes, [tx |-> C, kind |-> "executed",
@@ -875,7 +893,7 @@ WStep(w) ==
   \/ E_End(w) \/ V_Begin(w) \/ V_Ts(w) \/ (\E l \in Locs : V_Scan(w, l)) \/ T_Unconf(w)
   \/ V_End(w) \/ V_Notify(w) \/ A_Abort(w) \/ A_Cancel(w) \/ N_Notify(w)
 FStep == N_RegisterFin \/ F_Loop \/ F_ValLoad \/ F_Lock \/ F_Decide \/ F_Publish \/ F_Pred \/ N_ParkFin \/ N_Notify("fin")
-CStep == N_RegisterCom \/ C_Loop \/ C_FinLoad \/ C_Take \/ C_Nonce(TRUE) \/ C_Nonce(FALSE) \/ C_Apply \/ C_Publish \/ D_Commit \/ C_Pred \/ N_ParkCom
+CStep == N_RegisterCom \/ C_Loop \/ C_FinLoad \/ C_Take \/ (IF TraceMode THEN C_Nonce(TRUE) \/ C_Nonce(FALSE) ELSE C_Nonce(~BadNonce(block.progs[C + 1]))) \/ C_Apply \/ C_Publish \/ D_Commit \/ C_Pred \/ N_ParkCom
          \/ A_Abort("com") \/ A_Cancel("com") \/ N_Notify("com")
 MStep == M_Start \/ M_Join \/ S_Tx
 
@@ -895,10 +913,15 @@ CommitMatchesRef ==
 CommittedIsPrefix == Len(outcomes) <= FatalAt /\ comIdx <= Len(outcomes)
                      /\ (pc["main"] # "s_tx" /\ pc["main"] # "done" => comIdx >= Len(outcomes) - 1)
 
-(* the committed incarnation read exactly the in-order pre-state (core Block-STM safety) *)
+(* the committed incarnation read exactly the in-order pre-state (core Block-STM safety).
+   Finality is provisional in one respect: the sender nonce is only checked by ordered commit (C_Nonce),
+   so a final transaction may still be rejected there, together with every final successor that read
+   from it. In the model a final transaction is held to the invariant as soon as it is final unless it
+   or a predecessor carries a wrong nonce; on recorded runs it is evaluated on the committed prefix.   *)
 CommittedReadsFresh ==
   \A k \in 0..(N - 1) :
-    (status[k] = "Finality" /\ result[k].has /\ result[k].kind = "ok") =>
+    (status[k] = "Finality" /\ (k < comIdx \/ (~TraceMode /\ \A j \in 0..k : ~BadNonce(block.progs[j + 1])))
+       /\ result[k].has /\ result[k].kind = "ok") =>
        \A l \in Locs : (result[k].rs[l].k # "none" /\ ~IsResetLoc(l)) => result[k].rv[l] = RefState(k)[l]
 
 (* C01 / C03 / C04: the final observable *)
@@ -916,4 +939,14 @@ FinalityFresh ==
 (* C05 *)
 Terminates == <>Terminated
 TypeOK == /\ valIdx \in 0..N /\ finIdx \in 0..N /\ comIdx \in 0..N /\ comIdx <= finIdx
-=============================================================================
+(* ---------------------------------------------------------------------------------------------
+   Coverage goals: states of the design that the implementation must handle correctly although
+   ordinary schedules rarely reach them. `NotReach_G` is checked as an invariant; TLC's shortest path
+   to the goal is a schedule, replayed on the real scheduler (guide policy) and the recorded run is
+   validated like every other run. Nothing is claimed about these states beyond reachability.       *)
+(* every predecessor of a failing attempt is committed while the attempt is still running *)
+Reach_CommitDuringFailedAttempt ==
+  \E w \in Workers : pc[w] = "e_done" /\ loc[w].st \in {"fatal", "invalid"} /\ loc[w].blockers = {}
+                      /\ loc[w].c # loc[w].tx /\ comIdx = loc[w].tx
+NotReach_CommitDuringFailedAttempt == ~Reach_CommitDuringFailedAttempt
+========================================================================
